@@ -167,6 +167,7 @@ pub fn gen_stack_expr(r: &mut Rng, d: u32, extras: bool) -> GE {
     use GE::*;
     let lit = |r: &mut Rng| ["x", "y", "xy", "yx"][r.weighted(&[4, 4, 2, 1])].to_string();
     if d == 0 || r.chance(1, 5) {
+        if r.chance(1, 8) { return Id(["r2", "r3", "r2"][r.below(3) as usize].into()); }   // helper rules of gen_stack_grammar (rule calls are not rotated)
         return match r.weighted(&[8, 5, 3, 3, 3, 2, 4, 4, if extras { 2 } else { 0 }]) {
             0 => Push(Box::new(Str(lit(r)))), 1 => Str(lit(r)), 2 => Id("DROP".into()), 3 => Id("POP".into()), 4 => Id("PEEK".into()),
             5 => Id(["PEEK_ALL", "POP_ALL"][r.below(2) as usize].into()),
@@ -174,6 +175,16 @@ pub fn gen_stack_expr(r: &mut Rng, d: u32, extras: bool) -> GE {
             7 => Push(Box::new(Range('x', 'y'))),
             _ => PushLit(lit(r)),
         };
+    }
+    if r.chance(1, 6) {
+        // a failing alternative that pushed, then (in an inner sequence that succeeds) popped across the
+        // outer snapshot line, followed by an alternative that reads the whole stack
+        let popper = |r: &mut Rng| Box::new(Id(["DROP", "DROP", "POP"][r.below(3) as usize].into()));
+        let inner = Seq(popper(r), popper(r));
+        let inner = if r.chance(1, 2) { Seq(Box::new(inner), popper(r)) } else { inner };
+        let failing = Seq(Box::new(Push(Box::new(Str(lit(r))))), Box::new(Seq(Box::new(inner), Box::new(Str("q".into())))));
+        let reader = match r.below(4) { 0 => Id("PEEK_ALL".into()), 1 => Slice(0, None), 2 => Id("POP_ALL".into()), _ => Seq(Box::new(Id("PEEK".into())), Box::new(Slice(0, Some(-1)))) };
+        return Cho(Box::new(failing), Box::new(reader));
     }
     let mut sub = |r: &mut Rng| Box::new(gen_stack_expr(r, d - 1, extras));
     match r.weighted(&[12, 8, 3, 3, 2, 2, 2]) {
@@ -192,6 +203,14 @@ pub fn gen_stack_grammar(r: &mut Rng, extras: bool) -> Vec<GRule> {
     let first = Seq(Box::new(Push(Box::new(Str(["x", "y"][r.below(2) as usize].into())))),
         Box::new(Seq(Box::new(Push(Box::new(Str(["y", "xy", "x"][r.below(3) as usize].into())))), Box::new(Seq(Box::new(body0), Box::new(Opt(Box::new(Id("r1".into())))))))));
     let mut rules = vec![GRule { name: "r0".into(), ty: tys[r.below(5) as usize], e: first }, GRule { name: "r1".into(), ty: tys[r.below(6) as usize], e: body1 }];
+    // r2 = PUSH(lit) ~ r3 ; r3 = popper ~ popper (~ popper): an inner sequence that pops the value just pushed AND older ones and
+    // succeeds, i.e. is cleared into the enclosing snapshot with pops on both sides of that snapshot's line
+    let popper = |r: &mut Rng| Box::new(Id(["DROP", "DROP", "POP"][r.below(3) as usize].into()));
+    let mut pops = Seq(popper(r), popper(r));
+    if r.chance(1, 3) { pops = Seq(Box::new(pops), popper(r)); }
+    let sil = [Ty::Silent, Ty::Silent, Ty::Normal, Ty::Atomic];
+    rules.push(GRule { name: "r2".into(), ty: sil[r.below(4) as usize], e: Seq(Box::new(Push(Box::new(Str(["x", "y", "xy"][r.below(3) as usize].into())))), Box::new(Id("r3".into()))) });
+    rules.push(GRule { name: "r3".into(), ty: sil[r.below(4) as usize], e: pops });
     if r.chance(1, 3) { rules.push(GRule { name: "WHITESPACE".into(), ty: Ty::Silent, e: Str(" ".into()) }); }
     rules
 }
